@@ -42,6 +42,8 @@ var scripts = [][][][]string{
 	// 4: tagged series of every type followed, in a later batch of the same parser, by lines carrying other
 	//    tags (parsed metrics are pooled and reused: nothing kept from a batch may change afterwards)
 	{{{"u:a|s|#r:eu\nc:1|c|#r:eu\nt:1|ms|#r:eu"}, {"c:1|c|#r:us,z:1\nu:b|s|#q:1"}}, {{"u:c|s|#r:eu"}}},
+	// 5: a histogram-tagged timer over several flushes (its values, too, belong to exactly one flush)
+	{{{"th:5|ms|#gsd_histogram:1_10\nth:50|ms|#gsd_histogram:1_10"}, {"th:7|ms|#gsd_histogram:1_10\nt:1|ms"}}},
 }
 
 type expect struct {
@@ -147,7 +149,7 @@ func body(c config, r *run) func(x *vsched.Exec) {
 				for _, batch := range drv {
 					var dgs []*statsd.Datagram
 					for _, msg := range batch {
-						dgs = append(dgs, &statsd.Datagram{IP: "1.2.3.4", Msg: []byte(msg), Timestamp: 10, DoneFunc: func() {}})
+						dgs = append(dgs, &statsd.Datagram{IP: "1.2.3.4", Msg: []byte(msg), Timestamp: gostatsd.Nanotime(mock.Now().UnixNano()), DoneFunc: func() {}})
 					}
 					vsched.Send(in, dgs)
 				}
@@ -259,6 +261,9 @@ func check(c config, r *run, exp expect, outcomes map[string]struct{}) func(x *v
 		if len(be.calls) > c.W {
 			x.Note("more-than-one-flush")
 		}
+		if debugC01 && c.Script == 5 {
+			fmt.Println("DBG", sig.String())
+		}
 		outcomes[c.String()+sig.String()] = struct{}{}
 		return "", ""
 	}
@@ -272,7 +277,7 @@ type replay struct {
 func configs() []config {
 	var cs []config
 	if vrt.Thorough() {
-		for _, s := range []int{0, 1, 2, 3, 4} {
+		for _, s := range []int{0, 1, 2, 3, 4, 5} {
 			for _, p := range []int{1, 2} {
 				for _, w := range []int{1, 2} {
 					for _, q := range []int{0, 1} {
@@ -290,6 +295,7 @@ func configs() []config {
 		{P: 1, W: 2, Q: 1, Script: 2, Ticks: 1},
 		{P: 2, W: 1, Q: 0, Script: 3, Ticks: 1},
 		{P: 1, W: 1, Q: 1, Script: 4, Ticks: 1},
+		{P: 1, W: 1, Q: 0, Script: 5, Ticks: 2},
 	}
 }
 
@@ -375,3 +381,5 @@ func main() {
 }
 
 func os_exit(c int) { osExit(c) }
+
+var debugC01 = false
